@@ -306,6 +306,7 @@ func (ex *Exec) main() {
 	var wg sync.WaitGroup
 	ex.trigWG = &wg
 	seenRPC := map[string]int{}
+	firedTop := map[int]bool{}
 	planned := len(p.Nodes)
 	_ = planned
 	c.OnReply = func(call simnet.Call) {
@@ -315,21 +316,36 @@ func (ex *Exec) main() {
 			return
 		}
 		seenRPC[call.Method]++
-		if (call.Method == "FinishLeave" || call.Method == "FinishJoin") && ex.bursts < p.Bursts {
+		if call.Method == "FinishLeave" || call.Method == "FinishJoin" {
 			req := &protocol.MembershipConclusionRequest{}
 			if req.UnmarshalVT(call.ReqBody) == nil && req.GetRelease() {
 				if !req.GetStabilize() {
 					simrt.Probe("finish-release-without-stabilize/" + call.Method)
 				}
-				bi := ex.bursts
-				ex.bursts++
-				ex.trigActive++
-				simrt.GoGroup(fmt.Sprintf("h:burst%d", bi), "", func() { defer func() { ex.trigActive-- }(); ex.burst(bi, call) })
+				if lv := ex.c.ByName(call.From); call.Method == "FinishLeave" && lv != nil && lv.Node.VerifState() != spec.Left {
+					// the leaver had the successor's lock and gave the attempt up
+					simrt.Probe("leave-abandoned-after-grant")
+				}
+				if ex.bursts < p.Bursts {
+					bi := ex.bursts
+					ex.bursts++
+					ex.trigActive++
+					simrt.GoGroup(fmt.Sprintf("h:burst%d", bi), "", func() { defer func() { ex.trigActive-- }(); ex.burst(bi, call) })
+				}
 			}
 		}
 		for ti := range p.Triggers {
 			tr := p.Triggers[ti]
-			if tr.OnMethod == call.Method && tr.Nth == seenRPC[call.Method] {
+			if tr.WhenTop && tr.Nth == 0 && tr.OnMethod == call.Method && !firedTop[ti] {
+				if top := ex.extreme(true); top != nil && top == ex.c.ByName(call.To) {
+					firedTop[ti] = true
+					simrt.Probe("trigger-at-top/" + call.Method)
+					ex.trigActive++
+					simrt.GoGroup(fmt.Sprintf("h:trigger%d", ti), "", func() { defer func() { ex.trigActive-- }(); ex.fire(tr, call) })
+				}
+				continue
+			}
+			if tr.Nth > 0 && tr.OnMethod == call.Method && tr.Nth == seenRPC[call.Method] {
 				ex.trigActive++
 				simrt.GoGroup(fmt.Sprintf("h:trigger%d", ti), "", func() { defer func() { ex.trigActive-- }(); ex.fire(tr, call) })
 			}
@@ -711,6 +727,20 @@ func (ex *Exec) neighbour(h *NodeH, dir int) *NodeH {
 	return nil
 }
 
+// extreme returns the current member with the largest (or smallest) identifier.
+func (ex *Exec) extreme(largest bool) *NodeH {
+	var best *NodeH
+	for _, x := range ex.c.Slots {
+		if x == nil || !x.Joined || x.Left || x.Crashed {
+			continue
+		}
+		if best == nil || (largest && x.ID > best.ID) || (!largest && x.ID < best.ID) {
+			best = x
+		}
+	}
+	return best
+}
+
 // burst is a short series of operations on the shared keys right after a membership change was concluded
 // (or abandoned), entering at the two nodes of the change: what one of them acknowledges the other must see.
 func (ex *Exec) burst(bi int, call simnet.Call) {
@@ -762,6 +792,14 @@ func (ex *Exec) fire(tr Trigger, call simnet.Call) {
 	case "succ-of-callee":
 		if callee != nil {
 			target = ex.neighbour(callee, +1)
+		}
+	case "top":
+		target = ex.extreme(true)
+	case "bottom":
+		target = ex.extreme(false)
+	case "pred-of-top":
+		if top := ex.extreme(true); top != nil {
+			target = ex.neighbour(top, -1)
 		}
 	}
 	if target == nil {
